@@ -23,6 +23,14 @@
 #[path = "gen/e_ll_t_parser.rs"] mod e_ll_t_parser;
 #[path = "gen/e_lr_t_grammar_trait.rs"] mod e_lr_t_grammar_trait;
 #[path = "gen/e_lr_t_parser.rs"] mod e_lr_t_parser;
+#[path = "gen/e_ll_d_grammar_trait.rs"] mod e_ll_d_grammar_trait;
+#[path = "gen/e_ll_d_parser.rs"] mod e_ll_d_parser;
+#[path = "gen/e_lr_d_grammar_trait.rs"] mod e_lr_d_grammar_trait;
+#[path = "gen/e_lr_d_parser.rs"] mod e_lr_d_parser;
+#[path = "gen/e_ll_s_grammar_trait.rs"] mod e_ll_s_grammar_trait;
+#[path = "gen/e_ll_s_parser.rs"] mod e_ll_s_parser;
+#[path = "gen/e_lr_s_grammar_trait.rs"] mod e_lr_s_grammar_trait;
+#[path = "gen/e_lr_s_parser.rs"] mod e_lr_s_parser;
 
 use parol_runtime::{ParolError, Token, parser::parse_tree_type::TreeConstruct};
 
@@ -76,6 +84,10 @@ user_grammar2!(e_ll_grammar, ELlGrammar, ELlGrammarTrait, e_ll_grammar_trait);
 user_grammar2!(e_lr_grammar, ELrGrammar, ELrGrammarTrait, e_lr_grammar_trait);
 user_grammar2!(e_ll_t_grammar, ELlTGrammar, ELlTGrammarTrait, e_ll_t_grammar_trait);
 user_grammar2!(e_lr_t_grammar, ELrTGrammar, ELrTGrammarTrait, e_lr_t_grammar_trait);
+user_grammar2!(e_ll_d_grammar, ELlDGrammar, ELlDGrammarTrait, e_ll_d_grammar_trait);
+user_grammar2!(e_lr_d_grammar, ELrDGrammar, ELrDGrammarTrait, e_lr_d_grammar_trait);
+user_grammar2!(e_ll_s_grammar, ELlSGrammar, ELlSGrammarTrait, e_ll_s_grammar_trait);
+user_grammar2!(e_lr_s_grammar, ELrSGrammar, ELrSGrammarTrait, e_lr_s_grammar_trait);
 
 #[derive(Debug, Clone, PartialEq)]
 struct Leaf { ty: u16, start: usize, end: usize, text: String, line: u32, col: u32 }
@@ -148,7 +160,7 @@ fn line_col(s: &str, off: usize) -> (u32, u32) {
     (line, col)
 }
 
-struct Run { ok: bool, leaves: Vec<Leaf>, events: Vec<Ev>, panicked: bool }
+struct Run { ok: bool, leaves: Vec<Leaf>, events: Vec<Ev>, panicked: bool, depth_err: bool }
 /// variant: 0 = LL(k), 1 = LALR(1), 2 = LL(k) with trim_parse_tree, 3 = LALR(1) with trim_parse_tree, 4 = LL(k) with recovery disabled
 const VARIANTS: [&str; 5] = ["LL(k)", "LALR(1)", "LL(k) trimmed", "LALR(1) trimmed", "LL(k) recovery disabled"];
 fn run(v: usize, input: &str) -> Run {
@@ -163,20 +175,21 @@ fn run(v: usize, input: &str) -> Run {
             _ => { let mut g = ll_grammar::LlGrammar::default(); let r = ll_parser::parse_into(&inp, &mut col, "x", &mut g); (r.is_ok(), col.leaves, g.events) }
         }
     });
-    match r { Ok((ok, leaves, events)) => Run { ok, leaves, events, panicked: false }, Err(_) => Run { ok: false, leaves: vec![], events: vec![], panicked: true } }
+    match r { Ok((ok, leaves, events)) => Run { ok, leaves, events, panicked: false, depth_err: false }, Err(_) => Run { ok: false, leaves: vec![], events: vec![], panicked: true, depth_err: false } }
 }
 
-const CLAUSES: [(&str, &str); 10] = [
-    ("C08 C14 C16 C17 C19", "parse does not panic"),
-    ("C08 C14 C16 C17", "acceptance: success iff the input is a sentence of the toy grammar (no error token, every `;` directly after an `a`; skipped tokens do not matter)"),
+const CLAUSES: [(&str, &str); 11] = [
+    ("C08 C14 C16 C17 C19 C20", "parse does not panic"),
+    ("C08 C14 C16 C17 C20", "acceptance: success iff the input is a sentence of the toy grammar (no error token, every `;` directly after an `a`; skipped tokens do not matter)"),
     ("C14", "tree leaves are contiguous, in order, start at 0 and end at the input length"),
     ("C14 C16", "leaf texts equal the input slices of their byte ranges (texts concatenate to the input)"),
     ("C14 C16", "leaf token types and ranges equal the reference tokenization (significant, skipped, comments, unmatched gaps)"),
     ("C14", "line/column positions of scanner-produced leaves match the text"),
     ("C14", "line/column positions of unmatched-gap leaves match the text"),
-    ("C08 C17", "semantic actions see exactly the significant tokens, in order (skipped and state-skipped tokens never influence the derivation)"),
+    ("C08 C17 C20", "semantic actions see exactly the significant tokens, in order (skipped and state-skipped tokens never influence the derivation)"),
     ("C17", "every comment is passed to on_comment exactly once, in input order"),
     ("C19", "parse returns: no single parse runs longer than the watchdog limit (30 s)"),
+    ("C19 C20", "depth limit: a limit that is not reached changes nothing; an exceeded limit yields the MaxParsingDepthExceeded error value (or the unlimited outcome), never a panic or another result"),
 ];
 /// index of the first violated clause
 fn check(v: usize, input: &str) -> Option<usize> {
@@ -218,7 +231,7 @@ fn check_events(r: &Run, want: &[RTok]) -> Option<usize> {
 }
 
 // ================= second toy grammar: nested expressions (LL(1) / LALR(1), full tree and trimmed) =================
-const G2_VARIANTS: [&str; 4] = ["expr LL(k)", "expr LALR(1)", "expr LL(k) trimmed", "expr LALR(1) trimmed"];
+const G2_VARIANTS: [&str; 8] = ["expr LL(k)", "expr LALR(1)", "expr LL(k) trimmed", "expr LALR(1) trimmed", "expr LL(k) depth limit 1000", "expr LALR(1) depth limit 1000", "expr LL(k) depth limit 3", "expr LALR(1) depth limit 4"];
 const NUM: u16 = 5; const PLUS: u16 = 6; const OPEN: u16 = 7; const CLOSE: u16 = 8; const ERR2: u16 = 9;
 fn reference_tokens2(s: &str) -> Vec<RTok> {
     let b = s.as_bytes();
@@ -252,18 +265,45 @@ fn is_expr(t: &[u16]) -> bool {
     }
     e(t, 0) == Some(t.len())
 }
+fn is_depth_err(r: &Result<(), ParolError>) -> bool {
+    matches!(r, Err(ParolError::ParserError(parol_runtime::ParserError::MaxParsingDepthExceeded { .. })))
+}
+/// maximal LL(k) production depth of a sentence of the expression grammar: the number of simultaneously open productions,
+/// list (push) productions not counted: E opens at base+1, a term at base+2, its terminal wrapper (or the parenthesis
+/// wrappers) at base+3, a parenthesised inner E starts with base+2
+fn ll_depth(t: &[u16]) -> usize {
+    fn e(t: &[u16], mut p: usize, base: usize, mx: &mut usize) -> usize {
+        p = term(t, p, base, mx);
+        while p < t.len() && t[p] == PLUS { p = term(t, p + 1, base, mx); }
+        p
+    }
+    fn term(t: &[u16], p: usize, base: usize, mx: &mut usize) -> usize {
+        *mx = (*mx).max(base + 3);
+        if t[p] == NUM { return p + 1; }
+        let q = e(t, p + 1, base + 2, mx);
+        q + 1
+    }
+    let mut mx = 0;
+    e(t, 0, 0, &mut mx);
+    mx
+}
 fn run2(v: usize, input: &str) -> Run {
     let inp = input.to_string();
     let r = std::panic::catch_unwind(move || {
         let mut col = Collector::default();
+        macro_rules! go { ($g:ident, $ty:ident, $p:ident) => {{ let mut g = $g::$ty::default(); let r = $p::parse_into(&inp, &mut col, "x", &mut g); (r.is_ok(), is_depth_err(&r), col.leaves, g.events) }} }
         match v {
-            1 => { let mut g = e_lr_grammar::ELrGrammar::default(); let r = e_lr_parser::parse_into(&inp, &mut col, "x", &mut g); (r.is_ok(), col.leaves, g.events) }
-            2 => { let mut g = e_ll_t_grammar::ELlTGrammar::default(); let r = e_ll_t_parser::parse_into(&inp, &mut col, "x", &mut g); (r.is_ok(), col.leaves, g.events) }
-            3 => { let mut g = e_lr_t_grammar::ELrTGrammar::default(); let r = e_lr_t_parser::parse_into(&inp, &mut col, "x", &mut g); (r.is_ok(), col.leaves, g.events) }
-            _ => { let mut g = e_ll_grammar::ELlGrammar::default(); let r = e_ll_parser::parse_into(&inp, &mut col, "x", &mut g); (r.is_ok(), col.leaves, g.events) }
+            1 => go!(e_lr_grammar, ELrGrammar, e_lr_parser),
+            2 => go!(e_ll_t_grammar, ELlTGrammar, e_ll_t_parser),
+            3 => go!(e_lr_t_grammar, ELrTGrammar, e_lr_t_parser),
+            4 => go!(e_ll_d_grammar, ELlDGrammar, e_ll_d_parser),
+            5 => go!(e_lr_d_grammar, ELrDGrammar, e_lr_d_parser),
+            6 => go!(e_ll_s_grammar, ELlSGrammar, e_ll_s_parser),
+            7 => go!(e_lr_s_grammar, ELrSGrammar, e_lr_s_parser),
+            _ => go!(e_ll_grammar, ELlGrammar, e_ll_parser),
         }
     });
-    match r { Ok((ok, leaves, events)) => Run { ok, leaves, events, panicked: false }, Err(_) => Run { ok: false, leaves: vec![], events: vec![], panicked: true } }
+    match r { Ok((ok, depth_err, leaves, events)) => Run { ok, leaves, events, panicked: false, depth_err }, Err(_) => Run { ok: false, leaves: vec![], events: vec![], panicked: true, depth_err: false } }
 }
 /// same clause indices as check()
 fn check2(v: usize, input: &str) -> Option<usize> {
@@ -272,14 +312,30 @@ fn check2(v: usize, input: &str) -> Option<usize> {
     if r.panicked { return Some(0); }
     let sigs: Vec<u16> = want.iter().filter(|t| !t.skip).map(|t| t.ty).collect();
     let expect_ok = !want.iter().any(|t| t.ty == ERR2) && is_expr(&sigs);
-    if r.ok != expect_ok { return Some(1); }
-    if !r.ok { return None; }
+    if v == 6 {
+        // LL(k) with depth limit 3: a sentence whose production depth stays within the limit parses as without a limit;
+        // a deeper sentence yields exactly the depth-limit error; a non-sentence yields some error
+        if expect_ok {
+            let deep = ll_depth(&sigs) > 3;
+            if deep != r.depth_err || r.ok == deep { return Some(10); }
+            if deep { return None; }
+        } else { if r.ok { return Some(10); } return None; }
+    } else if v == 7 {
+        // LALR(1) with depth limit 4 (the LR parser limits its state stack): the unlimited outcome or the depth-limit error
+        if r.depth_err { return None; }
+        if r.ok != expect_ok { return Some(10); }
+        if !r.ok { return None; }
+    } else {
+        if r.depth_err { return Some(10); }     // a limit of 1000 is never reached by the enumerated inputs
+        if r.ok != expect_ok { return Some(1); }
+        if !r.ok { return None; }
+    }
     let kind_of = |ty: u16| match ty { NUM => 'n', PLUS => '+', OPEN => '(', _ => ')' };
     let acts: Vec<(char, usize)> = r.events.iter().filter(|e| e.kind != 'c').map(|e| (e.kind, e.start)).collect();
     let want_acts: Vec<(char, usize)> = want.iter().filter(|t| !t.skip).map(|t| (kind_of(t.ty), t.start)).collect();
     let cms: Vec<(usize, usize)> = r.events.iter().filter(|e| e.kind == 'c').map(|e| (e.start, e.end)).collect();
     let want_cms: Vec<(usize, usize)> = want.iter().filter(|t| t.ty == LC || t.ty == BC).map(|t| (t.start, t.end)).collect();
-    if v >= 2 {
+    if v == 2 || v == 3 {
         if !r.leaves.is_empty() { return Some(4); }
     } else {
         let mut pos = 0;
